@@ -9,6 +9,8 @@ import DryocVerif.Spec.ChaCha20
 import DryocVerif.Model.Poly1305
 import DryocVerif.Model.Utils
 import DryocVerif.Model.Blake2b
+import DryocVerif.Model.SecretBox
+import DryocVerif.Model.SecretStream
 import DryocVerif.Model.Core
 open DryocVerif
 namespace Driver.Hash
@@ -42,7 +44,23 @@ def authVerifyModel (k m t : Bytes) : String :=
   | .err => "err"
   | .panic => "panic"
 
+/-- the constants the models are written against (compared with `dryoc::constants` as built, on every run) -/
+def modelConstants : List (String × Nat) := [
+  ("SECRETBOX_MACBYTES", Model.SecretBox.MACBYTES), ("SECRETBOX_KEYBYTES", 32), ("SECRETBOX_NONCEBYTES", 24),
+  ("BOX_MACBYTES", Model.SecretBox.MACBYTES), ("BOX_SEALBYTES", Model.SecretBox.SEALBYTES), ("BOX_PUBLICKEYBYTES", 32),
+  ("SECRETSTREAM_ABYTES", Model.SecretStream.ABYTES), ("SECRETSTREAM_HEADERBYTES", 24), ("SECRETSTREAM_TAG_MESSAGE", 0),
+  ("SECRETSTREAM_TAG_PUSH", 1), ("SECRETSTREAM_TAG_REKEY", Model.SecretStream.TAG_REKEY), ("SECRETSTREAM_COUNTERBYTES", 4),
+  ("SECRETSTREAM_INONCEBYTES", 8), ("KDF_BYTES_MIN", 16), ("KDF_BYTES_MAX", 64), ("KDF_CONTEXTBYTES", 8), ("KDF_KEYBYTES", 32),
+  ("GENERICHASH_BYTES_MIN", 16), ("GENERICHASH_BYTES_MAX", 64), ("GENERICHASH_KEYBYTES_MIN", 16), ("GENERICHASH_KEYBYTES_MAX", 64),
+  ("PWHASH_SALTBYTES", 16), ("PWHASH_OPSLIMIT_MIN", 1), ("PWHASH_OPSLIMIT_MAX", 4294967295), ("PWHASH_MEMLIMIT_MIN", 8192),
+  ("PWHASH_MEMLIMIT_MAX", 4398046510080), ("PWHASH_BYTES_MIN", 16), ("SIGN_BYTES", 64), ("SIGN_SEEDBYTES", 32),
+  ("KX_SESSIONKEYBYTES", 32), ("ONETIMEAUTH_BYTES", 16), ("AUTH_BYTES", 32), ("SHORTHASH_BYTES", 8), ("SHORTHASH_KEYBYTES", 16),
+  ("BOX_SEEDBYTES", 32)]
+
 def handle (op : String) (args : List String) : Option Ans :=
+  if op == "constants" then
+    some ("ok " ++ ",".intercalate (modelConstants.map fun (n, v) => n ++ "=" ++ toString v), "n/a")
+  else
   match op, hexArgs args with
   | "poly1305", some [k, m] =>
       some (okHex (Model.Poly1305.mac k m), okHex (Spec.Poly1305.mac k m))
